@@ -1406,6 +1406,22 @@ class Interp:
             if len(r) > 100000:
                 raise AnalysisError('range too large')
             return r
+        if name in ('all', 'any') and len(args) == 1 and isinstance(args[0], list) and not is_conc(args[0]):
+            ts = []
+            for x in args[0]:
+                t = self.truth(x, st)
+                if t is True:
+                    if name == 'any':
+                        return True
+                    continue
+                if t is False:
+                    if name == 'all':
+                        return False
+                    continue
+                ts.append(t)
+            if not ts:
+                return name == 'all'
+            return S(('bool', 'and' if name == 'all' else 'or', tuple(ts)), 'bool')
         if name in ('min', 'max', 'abs', 'sum', 'sorted', 'ord', 'chr', 'pow', 'divmod', 'round', 'float', 'any', 'all', 'reversed', 'hex', 'bin', 'enumerate', 'zip') and all(is_conc(a) for a in args) and not kwargs and args:
             import builtins
             try:
